@@ -61,6 +61,8 @@ def Cst.lexM : Cst → List Lex
   | .leaf _ t => [.tok t]
   | .list its _ => .tok ['['] :: its.lexM ++ [.tok [']']]
   | .set r _ its _ => recLex r ++ .tok ['{'] :: its.lexM ++ [.tok ['}']]
+  | .paren its _ => .tok ['('] :: its.lexM ++ [.tok [')']]
+  | .app f cs _ a => f.lexM ++ ncm cs ++ a.lexM
 def Items.lexM : Items → List Lex
   | .nil => []
   | .cmt _ t rest => normCmt t :: rest.lexM
@@ -210,6 +212,8 @@ theorem ok_after {e : Expr} (h : e.ok) : TrivOk e.after := by
   | list v m inn b a => exact h.2.2.2
   | set v m r inn b a => exact h.2.2.2
   | binding n v g b a => exact h.2.2.2
+  | paren v lg tg lb tb b a => exact h.2.2
+  | app n x g fa b a => exact h.2.2.2.2
 
 theorem ok_before {e : Expr} (h : e.ok) : TrivOk e.before := by
   cases e with
@@ -217,6 +221,8 @@ theorem ok_before {e : Expr} (h : e.ok) : TrivOk e.before := by
   | list v m inn b a => exact h.2.2.1
   | set v m r inn b a => exact h.2.2.1
   | binding n v g b a => exact h.2.2.1
+  | paren v lg tg lb tb b a => exact h.2.1
+  | app n x g fa b a => exact h.2.2.2.1
 
 theorem ok_setBefore {e : Expr} (h : e.ok) {b : List Trivia} (hb : TrivOk b) : (e.setBefore b).ok := by
   cases e with
@@ -224,6 +230,8 @@ theorem ok_setBefore {e : Expr} (h : e.ok) {b : List Trivia} (hb : TrivOk b) : (
   | list v m inn b' a => exact ⟨h.1, h.2.1, hb, h.2.2.2⟩
   | set v m r inn b' a => exact ⟨h.1, h.2.1, hb, h.2.2.2⟩
   | binding n v g b' a => exact ⟨h.1, h.2.1, hb, h.2.2.2⟩
+  | paren v lg tg lb tb b' a => exact ⟨h.1, hb, h.2.2⟩
+  | app n x g fa b' a => exact ⟨h.1, h.2.1, h.2.2.1, hb, h.2.2.2.2⟩
 
 theorem ok_setAfter {e : Expr} (h : e.ok) {a : List Trivia} (ha : TrivOk a) : (e.setAfter a).ok := by
   cases e with
@@ -231,6 +239,8 @@ theorem ok_setAfter {e : Expr} (h : e.ok) {a : List Trivia} (ha : TrivOk a) : (e
   | list v m inn b a' => exact ⟨h.1, h.2.1, h.2.2.1, ha⟩
   | set v m r inn b a' => exact ⟨h.1, h.2.1, h.2.2.1, ha⟩
   | binding n v g b a' => exact ⟨h.1, h.2.1, h.2.2.1, ha⟩
+  | paren v lg tg lb tb b a' => exact ⟨h.1, h.2.1, ha⟩
+  | app n x g fa b a' => exact ⟨h.1, h.2.1, h.2.2.1, h.2.2.2.1, ha⟩
 
 theorem ok_addAfter {e : Expr} (h : e.ok) {a : List Trivia} (ha : TrivOk a) : (e.addAfter a).ok :=
   ok_setAfter h (trivOk_append (ok_after h) ha)
@@ -252,6 +262,8 @@ theorem lexOut_setBefore (e : Expr) (hb : e.before = []) (b : List Trivia) (na :
   | list v m inn b' a => simp only [Expr.before] at hb; subst hb; simp [Expr.setBefore, Expr.lexOut]
   | set v m r inn b' a => simp only [Expr.before] at hb; subst hb; simp [Expr.setBefore, Expr.lexOut]
   | binding n v g b' a => simp only [Expr.before] at hb; subst hb; simp [Expr.setBefore, Expr.lexOut]
+  | paren v lg tg lb tb b' a => simp only [Expr.before] at hb; subst hb; simp [Expr.setBefore, Expr.lexOut]
+  | app n x g fa b' a => simp only [Expr.before] at hb; subst hb; simp [Expr.setBefore, Expr.lexOut]
 
 theorem lexOut_addAfter (e : Expr) (ts : List Trivia) : (e.addAfter ts).lexOut false = e.lexOut false ++ cm ts := by
   cases e with
@@ -259,6 +271,8 @@ theorem lexOut_addAfter (e : Expr) (ts : List Trivia) : (e.addAfter ts).lexOut f
   | list v m inn b a => simp [Expr.addAfter, Expr.setAfter, Expr.after, Expr.lexOut]
   | set v m r inn b a => simp [Expr.addAfter, Expr.setAfter, Expr.after, Expr.lexOut]
   | binding n v g b a => simp [Expr.addAfter, Expr.setAfter, Expr.after, Expr.lexOut]
+  | paren v lg tg lb tb b a => simp [Expr.addAfter, Expr.setAfter, Expr.after, Expr.lexOut]
+  | app n x g fa b a => simp [Expr.addAfter, Expr.setAfter, Expr.after, Expr.lexOut]
 
 theorem lexOut_addAfter_true (e : Expr) (ts : List Trivia) : (e.addAfter ts).lexOut true = e.lexOut true := by
   cases e with
@@ -266,6 +280,8 @@ theorem lexOut_addAfter_true (e : Expr) (ts : List Trivia) : (e.addAfter ts).lex
   | list v m inn b a => simp [Expr.addAfter, Expr.setAfter, Expr.after, Expr.lexOut]
   | set v m r inn b a => simp [Expr.addAfter, Expr.setAfter, Expr.after, Expr.lexOut]
   | binding n v g b a => simp [Expr.addAfter, Expr.setAfter, Expr.after, Expr.lexOut]
+  | paren v lg tg lb tb b a => simp [Expr.addAfter, Expr.setAfter, Expr.after, Expr.lexOut]
+  | app n x g fa b a => simp [Expr.addAfter, Expr.setAfter, Expr.after, Expr.lexOut]
 
 theorem lexOut_true_of_after_nil (e : Expr) (h : e.after = []) : e.lexOut true = e.lexOut false := by
   cases e with
@@ -273,6 +289,8 @@ theorem lexOut_true_of_after_nil (e : Expr) (h : e.after = []) : e.lexOut true =
   | list v m inn b a => simp only [Expr.after] at h; subst h; simp [Expr.lexOut]
   | set v m r inn b a => simp only [Expr.after] at h; subst h; simp [Expr.lexOut]
   | binding n v g b a => simp only [Expr.after] at h; subst h; simp [Expr.lexOut]
+  | paren v lg tg lb tb b a => simp only [Expr.after] at h; subst h; simp [Expr.lexOut]
+  | app n x g fa b a => simp only [Expr.after] at h; subst h; simp [Expr.lexOut]
 
 theorem modifyLast_isEmpty {α : Type} (f : α → α) : ∀ (l : List α), (modifyLast f l).isEmpty = l.isEmpty
   | [] => rfl
@@ -493,6 +511,237 @@ theorem body_lex (items : List Expr) (inner : List Trivia) (h : items ≠ [] →
   | nil => simp [lexOutAll]
   | cons e es => simp [h (by simp)]
 
+/-! ### counting the items of a sequence -/
+
+theorem modifyLast_length {α : Type} (f : α → α) : ∀ (l : List α), (modifyLast f l).length = l.length
+  | [] => rfl
+  | [_] => rfl
+  | x :: y :: rest => by simp [modifyLast, modifyLast_length f (y :: rest)]
+
+theorem seqComment_length (m : Mode) (st : SeqSt) (g t : Text) : (seqComment m st g t).items.length = st.items.length := by
+  unfold seqComment; split
+  · exact modifyLast_length _ _
+  · rfl
+
+/-- the loop appends one item per element / binding -/
+theorem items_parse_count : (its : Items) → ∀ (m : Mode) (st st' : SeqSt), its.parseSeq m st = .ok st' →
+    (m = .file ∨ m = .paren) → st'.items.length = st.items.length + its.countElems
+  | .nil, m, st, st', hp, _ => by
+    simp only [Items.parseSeq] at hp; injection hp with hp; subst hp; simp [Items.countElems]
+  | .cmt g t rest, m, st, st', hp, hm => by
+    simp only [Items.parseSeq] at hp
+    rw [items_parse_count rest m _ st' hp hm, seqComment_length]; simp [Items.countElems]
+  | .elem g c rest, m, st, st', hp, hm => by
+    simp only [Items.parseSeq] at hp
+    cases hpe : c.parse with
+    | error err => rw [hpe] at hp; cases hp
+    | ok e =>
+      rw [hpe] at hp
+      rcases hm with rfl | rfl
+      · simp only at hp
+        rw [items_parse_count rest .file _ st' hp (Or.inl rfl)]
+        simp [Items.countElems]; omega
+      · simp only at hp
+        rw [items_parse_count rest .paren _ st' hp (Or.inr rfl)]
+        simp [Items.countElems]; omega
+  | .bind g n c1 g1 c2 g2 v c3 g3 rest, m, st, st', hp, hm => by
+    simp only [Items.parseSeq] at hp
+    cases hpv : v.parse with
+    | error err => rw [hpv] at hp; cases hp
+    | ok ve => rw [hpv] at hp; rcases hm with rfl | rfl <;> cases hp
+
+theorem finishSeq_length (st : SeqSt) (cgo : Option Text) (hc : Bool) :
+    (finishSeq st cgo hc).1.length = st.items.length := by
+  have stage1 : ∃ items inner, (if st.before.isEmpty then (st.items, []) else if st.items.isEmpty then ([], st.before)
+        else (modifyLast (fun e => e.addAfter st.before) st.items, [])) = ((items, inner) : List Expr × List Trivia) ∧
+      items.length = st.items.length := by
+    by_cases hb : st.before.isEmpty = true
+    · exact ⟨st.items, [], by rw [if_pos hb], rfl⟩
+    · by_cases hi : st.items.isEmpty = true
+      · have : st.items = [] := by simpa using hi
+        exact ⟨[], st.before, by rw [if_neg hb, if_pos hi], by rw [this]⟩
+      · exact ⟨_, [], by rw [if_neg hb, if_neg hi], modifyLast_length _ _⟩
+  obtain ⟨items, inner, he, h1⟩ := stage1
+  unfold finishSeq
+  simp only [he]
+  cases cgo with
+  | none => exact h1
+  | some cg =>
+    simp only
+    split
+    · split
+      · exact h1
+      · rw [modifyLast_length]; exact h1
+    · exact h1
+
+/-! ### function application: the comments between function and argument -/
+
+theorem gcTrivia_spec' : ∀ (cs : GC) (acc : List Trivia), (∀ p ∈ cs, isCommentTok p.2 = true) → TrivOk acc →
+    TrivOk (gcTrivia acc cs) ∧ cm (gcTrivia acc cs) = cm acc ++ ncm cs
+  | [], acc, _, ha => ⟨ha, by simp [gcTrivia, ncm]⟩
+  | p :: rest, acc, h, ha => by
+    have hc := mkComment_cOk (h p (List.mem_cons_self ..)) false
+    have hacc := trivOk_append (appendGapTriviaOff_ok ha p.1 true) (trivOk_comment hc)
+    have ih := gcTrivia_spec' rest _ (fun q hq => h q (List.mem_cons_of_mem _ hq)) hacc
+    rw [gcTrivia]
+    refine ⟨ih.1, ?_⟩
+    rw [ih.2]; simp [ncm, normCmt, appendGapTriviaOff_cm]
+
+theorem gcOk_all : ∀ (cs : GC) (next : Text), gcOk cs next = true → ∀ p ∈ cs, isCommentTok p.2 = true
+  | [], _, _, p, hp => by cases hp
+  | q :: rest, next, h, p, hp => by
+    obtain ⟨h1, h2⟩ := gcOk_tail h
+    rcases List.mem_cons.mp hp with rfl | hp
+    · exact h1
+    · exact gcOk_all rest next h2 p hp
+
+/-- once the row of the function is left, no comment is inline -/
+theorem appSplit_inl_nil : ∀ (cs : GC) (first : Bool) (pend : Text), (appSplit cs first false pend).inl = []
+  | [], _, _ => rfl
+  | p :: cs, first, pend => by
+    simp only [appSplit, Bool.false_and, Bool.false_eq_true, if_false]
+    exact appSplit_inl_nil cs false []
+
+theorem appSplit_mem (P : Text → Prop) : ∀ (cs : GC) (first sr : Bool) (pend : Text), (∀ p ∈ cs, P p.2) →
+    (∀ t ∈ (appSplit cs first sr pend).inl, P t) ∧
+    (∀ p ∈ (appSplit cs first sr pend).rest, P p.2)
+  | [], _, _, _, _ => by
+    refine ⟨?_, ?_⟩
+    · intro t ht; cases ht
+    · intro p hp; cases hp
+  | p :: cs, first, sr, pend, h => by
+    have hp := h p (List.mem_cons_self ..)
+    have hr : ∀ q ∈ cs, P q.2 := fun q hq => h q (List.mem_cons_of_mem _ hq)
+    simp only [appSplit]
+    split
+    · have ih := appSplit_mem P cs false (sr && !containsNL p.1) (pend ++ p.1 ++ p.2) hr
+      refine ⟨fun t ht => ?_, ih.2⟩
+      rcases List.mem_cons.mp ht with rfl | ht
+      · exact hp
+      · exact ih.1 t ht
+    · have ih := appSplit_mem P cs false (sr && !containsNL p.1) [] hr
+      refine ⟨ih.1, fun q hq => ?_⟩
+      rcases List.mem_cons.mp hq with rfl | hq
+      · exact hp
+      · exact ih.2 q hq
+
+/-- after the first comment, the inline comments are a prefix -/
+theorem appSplit_order : ∀ (cs : GC) (sr : Bool) (pend : Text),
+    (appSplit cs false sr pend).inl.map normCmt ++ ncm (appSplit cs false sr pend).rest = ncm cs
+  | [], _, _ => rfl
+  | p :: cs, sr, pend => by
+    simp only [appSplit, Bool.false_and, Bool.not_false, Bool.and_true]
+    split
+    · have ih := appSplit_order cs (sr && !containsNL p.1) (pend ++ p.1 ++ p.2)
+      simp only [List.map_cons, List.cons_append, ih]; rfl
+    · rename_i hc
+      have hsr : (sr && !containsNL p.1) = false := by simpa using hc
+      rw [hsr]
+      have ih := appSplit_order cs false []
+      rw [appSplit_inl_nil] at ih ⊢
+      simp only [List.map_nil, List.nil_append] at ih ⊢
+      show normCmt p.2 :: ncm (appSplit cs false false []).rest = normCmt p.2 :: ncm cs
+      rw [ih]
+
+theorem appSplit_order_top (cs : GC) (h : appOrderOk cs = true) :
+    (appSplit cs true true []).inl.map normCmt ++ ncm (appSplit cs true true []).rest = ncm cs := by
+  cases cs with
+  | nil => rfl
+  | cons p cs =>
+    simp only [appSplit, Bool.true_and]
+    split
+    · have ih := appSplit_order cs (!containsNL p.1) ([] ++ p.1 ++ p.2)
+      simp only [List.map_cons, List.cons_append, ih]; rfl
+    · rename_i hc
+      have key : (appSplit cs false (!containsNL p.1) []).inl = [] := by
+        by_cases hnl : containsNL p.1 = true
+        · rw [hnl]; exact appSplit_inl_nil cs false []
+        · have hnl' : containsNL p.1 = false := by simpa using hnl
+          have hemp : p.1.isEmpty = true := by
+            simp only [hnl', Bool.not_false, Bool.true_and, Bool.not_eq_true', Bool.not_eq_false] at hc
+            simpa using hc
+          rw [hnl']
+          cases cs with
+          | nil => rfl
+          | cons q cs' =>
+            simp only [appOrderOk, hemp, Bool.true_and, Bool.not_not] at h
+            simp only [appSplit, Bool.not_false, Bool.true_and, h, Bool.not_true, Bool.false_and,
+              Bool.false_eq_true, if_false]
+            exact appSplit_inl_nil cs' false []
+      have ih := appSplit_order cs (!containsNL p.1) []
+      rw [key] at ih ⊢
+      simp only [List.map_nil, List.nil_append] at ih ⊢
+      show normCmt p.2 :: ncm (appSplit cs false (!containsNL p.1) []).rest = normCmt p.2 :: ncm cs
+      rw [ih]
+
+theorem filter_isTok_ncm (cs : GC) : (ncm cs).filter Lex.isTok = [] := by
+  induction cs with
+  | nil => rfl
+  | cons p cs ih =>
+    show List.filter Lex.isTok (normCmt p.2 :: ncm cs) = []
+    rw [List.filter_cons_of_neg (by simp [normCmt, Lex.isTok])]; exact ih
+
+theorem filter_isTok_cmC (cs : List Comment) : (cmC cs).filter Lex.isTok = [] := by
+  induction cs with
+  | nil => rfl
+  | cons c cs ih =>
+    show List.filter Lex.isTok (Lex.cmt (c.token 0) :: cmC cs) = []
+    rw [List.filter_cons_of_neg (by simp [Lex.isTok])]; exact ih
+
+theorem cmC_mkComment (ts : List Text) : cmC (ts.map fun t => mkComment t true) = ts.map normCmt := by
+  induction ts with
+  | nil => rfl
+  | cons t ts ih =>
+    simp only [List.map_cons, cmC] at ih ⊢
+    rw [ih]; simp [normCmt, mkComment_token]
+
+/-- `FunctionCall.from_cst` given function and argument -/
+theorem app_spec (strict : Bool) {fe ae : Expr} {cs : GC} {g : Text} (hcs : gcOk cs g = true)
+    (hf : fe.ok) (ha : ae.ok) (hab : ae.before = []) (hord : strict = true → appOrderOk cs = true) :
+    (appFromCst fe ae cs g).ok ∧ (appFromCst fe ae cs g).before = [] ∧ (appFromCst fe ae cs g).after = [] ∧
+    proj strict ((appFromCst fe ae cs g).lexOut false) =
+      proj strict (fe.lexOut false ++ ncm cs ++ ae.lexOut false) := by
+  have hall := gcOk_all cs g hcs
+  have hmem := appSplit_mem (fun t => isCommentTok t = true) cs true true [] hall
+  have hgt := gcTrivia_spec' (appSplit cs true true []).rest [] hmem.2 trivOk_nil
+  have hbaOk : TrivOk (appBeforeArg (appSplit cs true true []) g) ∧
+      cm (appBeforeArg (appSplit cs true true []) g) = ncm (appSplit cs true true []).rest := by
+    unfold appBeforeArg
+    split
+    · rename_i he
+      have : (appSplit cs true true []).rest = [] := by simpa using he
+      exact ⟨trivOk_nil, by rw [this]; rfl⟩
+    · split
+      · exact ⟨trivOk_append hgt.1 trivOk_emptyLine, by simp [hgt.2]⟩
+      · exact ⟨by simpa using hgt.1, by simp [hgt.2]⟩
+  have hbf : ∀ (c : Bool), TrivOk (if c = true then trimLeadingLayoutTrivia (appBeforeArg (appSplit cs true true []) g ++ ae.before)
+        else appBeforeArg (appSplit cs true true []) g ++ ae.before) ∧
+      cm (if c = true then trimLeadingLayoutTrivia (appBeforeArg (appSplit cs true true []) g ++ ae.before)
+        else appBeforeArg (appSplit cs true true []) g ++ ae.before) = ncm (appSplit cs true true []).rest := by
+    intro c
+    rw [hab, List.append_nil]
+    split
+    · exact ⟨trimLeading_ok hbaOk.1, by rw [trimLeading_cm, hbaOk.2]⟩
+    · exact hbaOk
+  have hfa : ∀ c ∈ (appSplit cs true true []).inl.map (fun t => mkComment t true), cOk c := by
+    intro c hc
+    obtain ⟨t, ht, rfl⟩ := List.mem_map.mp hc
+    exact mkComment_cOk (hmem.1 t ht) true
+  unfold appFromCst
+  refine ⟨⟨hf, ok_setBefore ha (hbf _).1, hfa, trivOk_nil, trivOk_nil⟩, rfl, rfl, ?_⟩
+  simp only [Expr.lexOut, cm_nil, List.nil_append, List.append_nil, Bool.false_eq_true, if_false]
+  rw [lexOut_setBefore ae hab, (hbf _).2, cmC_mkComment]
+  cases strict with
+  | true =>
+    simp only [proj, if_true]
+    rw [← appSplit_order_top cs (hord rfl)]
+    simp [List.append_assoc]
+  | false =>
+    simp only [proj, Bool.false_eq_true, if_false, List.filter_append, filter_isTok_ncm]
+    have : List.filter Lex.isTok (List.map normCmt (appSplit cs true true []).inl) = [] := by
+      rw [← cmC_mkComment]; exact filter_isTok_cmC _
+    rw [this]; simp
+
 /-! ### `fromCst` on well-formed input -/
 
 theorem proj_cons (s : Bool) (x : Lex) (l : List Lex) : proj s (x :: l) = proj s [x] ++ proj s l := by
@@ -548,6 +797,45 @@ theorem cst_parse_spec (strict : Bool) : (c : Cst) → c.wf = true → (strict =
     rw [show (recLex isRec ++ Lex.tok ['{'] :: its.lexM ++ [Lex.tok ['}']]) =
       recLex isRec ++ [Lex.tok ['{']] ++ its.lexM ++ [Lex.tok ['}']] from by simp]
     simp only [proj_append, hlex]
+  | .paren its cg, hwf, hord => by
+    simp only [Cst.wf, Bool.and_eq_true, beq_iff_eq] at hwf
+    obtain ⟨st', hp, hst', hlex⟩ := items_parse_spec strict its .paren cg {} false hwf.1.1
+      ⟨trivial, trivOk_nil⟩ (fun hs => ⟨by simpa [Cst.orderOk] using hord hs, fun _ => rfl⟩)
+    have hf := finishSeq_spec hst' none (!its.isNil)
+    have hlen : (finishSeq st' none (!its.isNil)).1.length = 1 := by
+      rw [finishSeq_length, items_parse_count its .paren _ st' hp (Or.inr rfl), hwf.1.2]; rfl
+    obtain ⟨v, hv⟩ : ∃ v, (finishSeq st' none (!its.isNil)).1 = [v] := by
+      match h : (finishSeq st' none (!its.isNil)).1, hlen with
+      | [v], _ => exact ⟨v, rfl⟩
+    have hpe : (Cst.paren its cg).parse = .ok (.paren v its.preElem (its.postElem ++ cg)
+        (gapHasEmptyLineOffsets (its.firstGap.getD [])) (gapHasEmptyLineOffsets cg) [] []) := by
+      simp only [Cst.parse, hp, hv]
+    rw [hv] at hf
+    refine ⟨_, hpe, ⟨hf.1.1, trivOk_nil, trivOk_nil⟩, rfl, rfl, ?_⟩
+    have hvl : v.lexOut false = seqLex st' := by
+      have h1 := hf.2.2.1
+      rw [hf.2.2.2 (by simp)] at h1
+      simpa [lexOutAll] using h1
+    simp only [Expr.lexOut, Cst.lexM, cm_nil, List.nil_append, List.append_nil, if_false, Bool.false_eq_true]
+    rw [hvl]
+    have hlex' : proj strict (seqLex st') = proj strict its.lexM := by
+      rw [hlex]; simp [seqLex, lexOutAll]
+    rw [show (Lex.tok ['('] :: its.lexM ++ [Lex.tok [')']]) = [Lex.tok ['(']] ++ its.lexM ++ [Lex.tok [')']] from by simp]
+    simp only [proj_append, hlex']
+  | .app f cs g a, hwf, hord => by
+    simp only [Cst.wf, Bool.and_eq_true] at hwf
+    obtain ⟨⟨⟨hfw, hcs⟩, _⟩, haw⟩ := hwf
+    have hord' : strict = true → f.orderOk = true ∧ appOrderOk cs = true ∧ a.orderOk = true := by
+      intro hs
+      have := hord hs
+      simp only [Cst.orderOk, Bool.and_eq_true] at this
+      exact ⟨this.1.1, this.1.2, this.2⟩
+    obtain ⟨fe, hpf, hfok, _, _, hfl⟩ := cst_parse_spec strict f hfw (fun hs => (hord' hs).1)
+    obtain ⟨ae, hpa, haok, hab, _, hal⟩ := cst_parse_spec strict a haw (fun hs => (hord' hs).2.2)
+    have hsp := app_spec strict hcs hfok haok hab (fun hs => (hord' hs).2.1)
+    refine ⟨appFromCst fe ae cs g, by simp only [Cst.parse, hpf, hpa], hsp.1, hsp.2.1, hsp.2.2.1, ?_⟩
+    rw [hsp.2.2.2, Cst.lexM]
+    simp only [proj_append, hfl, hal]
 theorem items_parse_spec (strict : Bool) : (its : Items) → ∀ (m : Mode) (cg : Text) (st : SeqSt) (pend : Bool),
     its.wf m cg = true → StOk st →
     (strict = true → its.orderOk m st.prev pend (!st.items.isEmpty) = true ∧ (pend = false → cm st.before = [])) →
@@ -617,6 +905,10 @@ theorem items_parse_spec (strict : Bool) : (its : Items) → ∀ (m : Mode) (cg 
     cases m with
     | set => exact absurd rfl hm
     | file =>
+      refine ⟨st', ?_, hst', ?_⟩
+      · simp only [Items.parseSeq, hpe, heb, List.append_nil]; exact hp
+      · rw [hl, proj_append, hlexnew, Items.lexM]; simp [proj_append]
+    | paren =>
       refine ⟨st', ?_, hst', ?_⟩
       · simp only [Items.parseSeq, hpe, heb, List.append_nil]; exact hp
       · rw [hl, proj_append, hlexnew, Items.lexM]; simp [proj_append]
@@ -735,6 +1027,14 @@ theorem cst_toks_lexM : (c : Cst) → toksL c.lexM = toksL c.lex
       show ((if r = true then [Lex.tok ['r', 'e', 'c']] else []) ++ Lex.tok ['{'] :: its.lex ++ [Lex.tok ['}']]) =
         (if r = true then [Lex.tok ['r', 'e', 'c']] else []) ++ [Lex.tok ['{']] ++ its.lex ++ [Lex.tok ['}']] from by simp]
     simp only [toksL_append, this, toksL_recLex]
+  | .paren its _ => by
+    have := items_toks_lexM its
+    simp only [Cst.lexM, Cst.lex]
+    rw [show (Lex.tok ['('] :: its.lexM ++ [Lex.tok [')']]) = [Lex.tok ['(']] ++ its.lexM ++ [Lex.tok [')']] from by simp,
+      show (Lex.tok ['('] :: its.lex ++ [Lex.tok [')']]) = [Lex.tok ['(']] ++ its.lex ++ [Lex.tok [')']] from by simp]
+    simp only [toksL_append, this]
+  | .app f cs _ a => by
+    simp only [Cst.lexM, Cst.lex, toksL_append, toksL_ncm, toksL_lexGC, cst_toks_lexM f, cst_toks_lexM a]
 theorem items_toks_lexM : (its : Items) → toksL its.lexM = toksL its.lex
   | .nil => rfl
   | .cmt _ t rest => by
